@@ -103,6 +103,13 @@ impl<'a> Stream<'a> {
     }
 }
 
+/// Split an input into a head (configuration, profiles, operations) and a tail (the game), so
+/// that a large game does not starve the later choices of bytes.
+pub fn split(data: &[u8], head: usize) -> (Stream<'_>, Stream<'_>) {
+    let cut = head.min(data.len());
+    (Stream::new(&data[..cut]), Stream::new(&data[cut..]))
+}
+
 /// splitmix style mixing for derived seeds (never used for choices inside a property)
 pub fn mix(mut z: u64) -> u64 {
     z = z.wrapping_add(0x9E37_79B9_7F4A_7C15);
